@@ -22,7 +22,7 @@ fn spec(t: Tier) -> Spec {
     Spec {
         id: "C10",
         level: "fault_enumeration",
-        rule: format!("every ordered forest with <= {} nodes over leaves (file, empty directory, link to an outside file, link to an outside directory holding a file (one outside directory per link), dangling link) and directories, as the content of r/; (sibling names a, b., c, d.., ..., f: some end in a dot) x {} expressions before -delete ({:?}); x -P -H -L; x starting points r | lr (a link to r) | r s | s r (s a second fixed tree, so that a failed removal can lie under a starting point that is not the last). Removal faults arise by construction (a matched directory with an unmatched child: rmdir fails) — every placement the expressions and trees produce is enumerated. For each case the tree is built twice: (1) the real find runs `-depth EXPR -print` and the output must be the reference list of matched entries in depth-first order; (2) on the rebuilt tree the real find runs `EXPR -delete -printf 'D %p' -o -printf 'N %p'`: the D lines must be exactly the removals the reference simulation predicts, in order (a directory only when all its children were removed; a link itself, never its target), N lines everything else incl. failed removals, exit status and a diagnostic iff a removal failed, walk not stopped; (3) the snapshot (path, type, mode, size, link target, content hash, link count) of the whole sandbox after the run must equal the predicted one: nothing else changed inside or outside. Every tree is also run with `-delete -delete`: the second removal of an entry that is already gone must fail (diagnostic, -delete false, exit != 0). non-trivial = case in which at least one entry is matched and at least one is not, or a removal fails", max_nodes(t), EXPRS.len(), EXPRS),
+        rule: format!("every ordered forest with <= {} nodes over leaves (file, empty directory, link to an outside file, link to an outside directory holding a file (one outside directory per link), dangling link) and directories, as the content of r/; (sibling names a, b., c, d.., ..., f: some end in a dot) x {} expressions before -delete ({:?}); x -P -H -L; x starting points r | lr (a link to r) | r s | s r (s a second fixed tree, so that a failed removal can lie under a starting point that is not the last); for the starting point r also x depth bounds -maxdepth 1 | -mindepth 1 | -mindepth 1 -maxdepth 1 | -maxdepth 2 (entries outside the bounds are neither matched nor removed; a directory at the depth limit still holds its children, so its removal must fail). Removal faults arise by construction (a matched directory with an unmatched child: rmdir fails) — every placement the expressions and trees produce is enumerated. For each case the tree is built twice: (1) the real find runs `-depth EXPR -print` and the output must be the reference list of matched entries in depth-first order; (2) on the rebuilt tree the real find runs `EXPR -delete -printf 'D %p' -o -printf 'N %p'`: the D lines must be exactly the removals the reference simulation predicts, in order (a directory only when all its children were removed; a link itself, never its target), N lines everything else incl. failed removals, exit status and a diagnostic iff a removal failed, walk not stopped; (3) the snapshot (path, type, mode, size, link target, content hash, link count) of the whole sandbox after the run must equal the predicted one: nothing else changed inside or outside. Every tree is also run with `-delete -delete`: the second removal of an entry that is already gone must fail (diagnostic, -delete false, exit != 0). non-trivial = case in which at least one entry is matched and at least one is not, or a removal fails", max_nodes(t), EXPRS.len(), EXPRS),
         bound: json!({"max_nodes": max_nodes(t), "expressions": EXPRS, "follow": ["-P","-H","-L"], "roots": ["r","lr","r s","s r"]}),
         assumptions: vec![
             "-empty (whose truth changes as the walk deletes) and a starting point spelled '.' are outside the check".into(),
@@ -129,8 +129,25 @@ struct Plan {
     removed_nodes: BTreeSet<usize>,
 }
 
-fn plan(fs: &Fs, roots: &str, follow: Follow, e: &str) -> Plan {
-    let cfg = WalkCfg { follow, mindepth: 0, maxdepth: usize::MAX, depth_first: true };
+/// (mindepth, maxdepth) given as global options; (0, usize::MAX) = none given
+type Bounds = (usize, usize);
+const NO_BOUNDS: Bounds = (0, usize::MAX);
+const BOUNDS: [Bounds; 4] = [(0, 1), (1, usize::MAX), (1, 1), (0, 2)];
+
+fn bounds_args(b: Bounds) -> Vec<&'static str> {
+    let num = |n: usize| -> &'static str { ["0", "1", "2"][n] };
+    let mut v = vec![];
+    if b.0 > 0 {
+        v.extend(["-mindepth", num(b.0)]);
+    }
+    if b.1 != usize::MAX {
+        v.extend(["-maxdepth", num(b.1)]);
+    }
+    v
+}
+
+fn plan(fs: &Fs, roots: &str, follow: Follow, e: &str, b: Bounds) -> Plan {
+    let cfg = WalkCfg { follow, mindepth: b.0, maxdepth: b.1, depth_first: true };
     let mut removed: BTreeSet<usize> = BTreeSet::new();
     let mut attempts = vec![];
     let mut visited = vec![];
@@ -174,19 +191,23 @@ fn lines(b: &[u8]) -> Vec<String> {
 }
 
 /// returns Some((signature, detail)) on violation
-fn one_case(ctx: &mut Ctx, forest: &[Shape], root: &str, follow: Follow, e: &str) -> Option<(String, String)> {
+fn one_case(ctx: &mut Ctx, forest: &[Shape], root: &str, follow: Follow, e: &str, b: Bounds) -> Option<(String, String)> {
     let fs = c10_fs(forest);
     if let Err(err) = build(ctx, &fs) {
         ctx.rep.machinery(format!("tree builder: {err}"));
         return None;
     }
-    let p = plan(&fs, root, follow, e);
-    let tag = format!("{} root={} expr={}", follow.flag(), root, e);
+    let p = plan(&fs, root, follow, e, b);
+    let btag = if b == NO_BOUNDS { String::new() } else { format!(" {}", bounds_args(b).join(" ")) };
+    let root_tag = format!("{root}{btag}");
+    let tag = format!("{} root={} expr={}", follow.flag(), root_tag, e);
     let ea = expr_args(e);
     // (1) twin: -depth EXPR -print
     let mut a1: Vec<&str> = vec![follow.flag()];
     a1.extend(root.split(' '));
-    a1.extend(["-sorted", "-depth"]);
+    a1.push("-sorted");
+    a1.extend(bounds_args(b));
+    a1.push("-depth");
     if e == "prune-a-or-true" {
         let pa = format!("{}/a", root_of_r(root));
         let pa: &'static str = Box::leak(pa.into_boxed_str());
@@ -206,12 +227,13 @@ fn one_case(ctx: &mut Ctx, forest: &[Shape], root: &str, follow: Follow, e: &str
         return Some((format!("C10 -depth -print changed the tree [{tag}]"), format!("find {:?}", a1)));
     }
     if lines(&twin.out) != want_twin {
-        return Some((format!("C10 reference and `-depth EXPR -print` disagree on the matched entries [{} root={}]", follow.flag(), root), format!("tree {} ; find {:?}\nreference {:?}\nactual    {:?}", fs.describe(0), a1, want_twin, lines(&twin.out))));
+        return Some((format!("C10 reference and `-depth EXPR -print` disagree on the matched entries [{} root={}]", follow.flag(), root_tag), format!("tree {} ; find {:?}\nreference {:?}\nactual    {:?}", fs.describe(0), a1, want_twin, lines(&twin.out))));
     }
     // (2) the deletion run on the identical tree
     let mut a2: Vec<&str> = vec![follow.flag()];
     a2.extend(root.split(' '));
     a2.push("-sorted");
+    a2.extend(bounds_args(b));
     if e == "prune-a-or-true" {
         let pa: &'static str = Box::leak(format!("{}/a", root_of_r(root)).into_boxed_str());
         a2.extend(["(", "-path", pa, "-prune", "-printf", "N %p\\n", "-o", "-true", "-delete", "-printf", "D %p\\n", "-o", "-printf", "N %p\\n", ")"]);
@@ -250,7 +272,7 @@ fn one_case(ctx: &mut Ctx, forest: &[Shape], root: &str, follow: Follow, e: &str
         } else {
             "a matched removable entry survived"
         };
-        return Some((format!("C10 {kind} [{} root={}]", follow.flag(), root), detail(&format!("lost/changed {:?} ; unexpectedly present {:?}", lost.iter().map(|s| &s.path).collect::<Vec<_>>(), kept.iter().map(|s| &s.path).collect::<Vec<_>>()))));
+        return Some((format!("C10 {kind} [{} root={}]", follow.flag(), root_tag), detail(&format!("lost/changed {:?} ; unexpectedly present {:?}", lost.iter().map(|s| &s.path).collect::<Vec<_>>(), kept.iter().map(|s| &s.path).collect::<Vec<_>>()))));
     }
     // output: D lines = successful removals in order; N lines = the rest
     let out = lines(&got.out);
@@ -259,24 +281,24 @@ fn one_case(ctx: &mut Ctx, forest: &[Shape], root: &str, follow: Follow, e: &str
     if d_got != d_want {
         let same_set = d_got.iter().collect::<BTreeSet<_>>() == d_want.iter().collect::<BTreeSet<_>>();
         let kind = if same_set { "removal order differs from the depth-first order of -depth -print" } else { "-delete true/false does not match the removals that happened" };
-        return Some((format!("C10 {kind} [{} root={}]", follow.flag(), root), detail(&format!("D lines {:?}, expected {:?}", d_got, d_want))));
+        return Some((format!("C10 {kind} [{} root={}]", follow.flag(), root_tag), detail(&format!("D lines {:?}, expected {:?}", d_got, d_want))));
     }
     let n_got: BTreeSet<String> = out.iter().filter_map(|l| l.strip_prefix("N ").map(|s| s.to_string())).collect();
     let dset: BTreeSet<&String> = d_want.iter().collect();
     let n_want: BTreeSet<String> = p.visited.iter().filter(|v| !dset.contains(v)).cloned().collect();
     if n_got != n_want {
-        return Some((format!("C10 walk did not reach / evaluate every other entry [{} root={}]", follow.flag(), root), detail(&format!("N lines {:?}, expected {:?}", n_got, n_want))));
+        return Some((format!("C10 walk did not reach / evaluate every other entry [{} root={}]", follow.flag(), root_tag), detail(&format!("N lines {:?}, expected {:?}", n_got, n_want))));
     }
     let failures = p.attempts.iter().filter(|a| !a.1).count();
     if failures > 0 {
         if got.code == Ok(0) {
-            return Some((format!("C10 exit status 0 although a removal failed [{} root={}]", follow.flag(), root), detail("")));
+            return Some((format!("C10 exit status 0 although a removal failed [{} root={}]", follow.flag(), root_tag), detail("")));
         }
         if got.err.is_empty() {
-            return Some((format!("C10 no diagnostic for a failed removal [{} root={}]", follow.flag(), root), detail("")));
+            return Some((format!("C10 no diagnostic for a failed removal [{} root={}]", follow.flag(), root_tag), detail("")));
         }
     } else if got.code != Ok(0) {
-        return Some((format!("C10 non-zero exit status although every removal succeeded [{} root={}]", follow.flag(), root), detail("")));
+        return Some((format!("C10 non-zero exit status although every removal succeeded [{} root={}]", follow.flag(), root_tag), detail("")));
     }
     ctx.rep.evaluations += 1;
     let matched = p.attempts.len();
@@ -298,7 +320,7 @@ fn twice_case(ctx: &mut Ctx, forest: &[Shape]) -> Option<(String, String)> {
         ctx.rep.machinery(format!("tree builder: {err}"));
         return None;
     }
-    let p = plan(&fs, "r", Follow::P, "always");
+    let p = plan(&fs, "r", Follow::P, "always", NO_BOUNDS);
     let before = sandbox::snapshot(&ctx.sbx);
     let args = ["r", "-sorted", "-delete", "-delete", "-printf", "D %p\\n", "-o", "-printf", "N %p\\n"];
     let got = run_find(&args);
@@ -346,16 +368,20 @@ fn run(ctx: &mut Ctx) {
             for root in ["r", "lr", "r s", "s r"] {
                 for follow in [Follow::P, Follow::H, Follow::L] {
                     for e in EXPRS {
-                        if let Some((sig, detail)) = one_case(ctx, &forest, root, follow, e) {
-                            // determinism
-                            match one_case(ctx, &forest, root, follow, e) {
-                                Some((s2, _)) if s2 == sig => ctx.rep.violation(&sig, detail, json!({"prop":"C10","forest":enc,"root":root,"follow":follow.flag(),"expr":e})),
-                                _ => ctx.rep.machinery(format!("nondeterministic verdict: {enc} {root} {} {e}", follow.flag())),
+                        // depth bounds other than the default only for the starting point r
+                        let bounds: Vec<Bounds> = if root == "r" { std::iter::once(NO_BOUNDS).chain(BOUNDS).collect() } else { vec![NO_BOUNDS] };
+                        for b in bounds {
+                            if let Some((sig, detail)) = one_case(ctx, &forest, root, follow, e, b) {
+                                // determinism
+                                match one_case(ctx, &forest, root, follow, e, b) {
+                                    Some((s2, _)) if s2 == sig => ctx.rep.violation(&sig, detail, json!({"prop":"C10","forest":enc,"root":root,"follow":follow.flag(),"expr":e,"mindepth":b.0,"maxdepth":if b.1 == usize::MAX { 99 } else { b.1 }})),
+                                    _ => ctx.rep.machinery(format!("nondeterministic verdict: {enc} {root} {} {e} {b:?}", follow.flag())),
+                                }
                             }
                         }
-                        if ctx.rep.evaluations % 40_000 == 17 {
+                        if ctx.rep.samples.is_empty() || (ctx.rep.evaluations / 40_000) as usize >= ctx.rep.samples.len() {
                             let fs = c10_fs(&forest);
-                            ctx.rep.sample(json!({"tree": fs.describe(0), "root": root, "follow": follow.flag(), "expr": e, "predicted_attempts": plan(&fs, root, follow, e).attempts}));
+                            ctx.rep.sample(json!({"tree": fs.describe(0), "root": root, "follow": follow.flag(), "expr": e, "predicted_attempts": plan(&fs, root, follow, e, NO_BOUNDS).attempts}));
                         }
                     }
                 }
@@ -382,7 +408,11 @@ fn replay(case: &Value, ctx: &mut Ctx) -> Option<String> {
     };
     let root: &'static str = ["r", "lr", "r s", "s r"].into_iter().find(|r| Some(*r) == case["root"].as_str())?;
     let e = EXPRS.iter().find(|x| Some(**x) == case["expr"].as_str())?;
-    match one_case(ctx, &forest, root, follow, e) {
+    let b: Bounds = (case["mindepth"].as_u64().unwrap_or(0) as usize, match case["maxdepth"].as_u64() {
+        Some(x) if x < 99 => x as usize,
+        _ => usize::MAX,
+    });
+    match one_case(ctx, &forest, root, follow, e, b) {
         Some((sig, detail)) => {
             ctx.rep.violation(&sig, detail, case.clone());
             Some(sig)
